@@ -524,8 +524,212 @@ def corr_ctor_dtor(ctx, corr):
                                                 % (c[0], c[1], c[2], c[3], c[4], m, r)))
 
 
+# ---------------------------------------------------------------------------
+# whole member declaration statements (fields and methods mixed, constructors, destructors): extracted member_stmt
+# (Parse/MemberStmt.v) vs parse_string of `struct Cls { <statement> };` with a visitor that records members in order
+
+class _MemberRec(impl.SimpleCxxVisitor):
+    def __init__(self):
+        self.order = []
+
+    def on_class_field(self, state, f):
+        self.order.append(('f', f))
+        super().on_class_field(state, f)
+
+    def on_class_method(self, state, m):
+        self.order.append(('m', m))
+        super().on_class_method(state, m)
+
+
+MS_SPECS = ['constexpr', 'inline', 'static', 'const', 'volatile', 'virtual', 'explicit', 'mutable']
+MS_INITS = [None, None, None, ['=', '1'], ['=', 'a', '+', 'f', '(', '1', ',', '2', ')'], ['{', '1', '}'], ['{', '}'], ['=', '{', '1', ',', '2', '}']]
+MS_ENDS = [[';'], [';'], ['=', '0', ';'], ['=', 'delete', ';'], ['=', 'default', ';'], ['{', '}'], ['{', 'return', 'x', '[', '0', ']', ';', '}']]
+MS_CTOR_ENDS = MS_ENDS[:2] + MS_ENDS[3:] + [[':', 'a', '(', '1', ')', '{', '}'], [':', 'a', '(', '1', ')', ',', 'b', '{', '2', ',', '(', '3', ')', '}', '{', 'f', '(', ')', ';', '}']]
+MS_QUALS = [['const'], ['volatile'], ['override'], ['final'], ['&'], ['&&'], ['noexcept'], ['noexcept', '(', 'true', ')'], ['throw', '(', ')'], ['throw', '(', 'int', ')']]
+
+
+def real_member_stmt(cls, text):
+    from harness import decl
+    v = _MemberRec()
+    try:
+        impl.P.CxxParser("<str>", "struct %s { %s };" % (cls, text), v, None).parse()
+    except (impl.CxxParseError, AssertionError, RecursionError):
+        return ('err',)
+    ns = v.data.namespace
+    if len(ns.classes) != 1 or ns.variables or ns.functions or ns.typedefs:
+        return ('other',)
+    c = ns.classes[0]
+    if c.classes or c.typedefs or c.enums or c.friends or c.using or c.forward_decls or c.using_alias:
+        return ('other',)
+    if len(v.order) != len(c.fields) + len(c.methods) or not v.order:
+        return ('other',)
+    val = lambda x: None if x is None else tuple(t.value for t in x.tokens)
+    out = []
+    try:
+        for kind, o in v.order:
+            if o.access != 'public':
+                return ('other',)
+            if kind == 'f':
+                out.append(('field', o.name, decl.from_real(o.type), o.bits, val(o.value), (o.constexpr, o.mutable, o.static, o.inline)))
+            else:
+                if (o.has_trailing_return or o.msvc_convention or o.operator or o.raw_requires or o.template or len(o.name.segments) != 1
+                        or not isinstance(o.name.segments[0], T.NameSpecifier) or o.name.segments[0].specialization):
+                    return ('other',)
+                ps = []
+                for q in o.parameters:
+                    if q.default is not None or q.param_pack:
+                        return ('other',)
+                    ps.append((decl.from_real(q.type), q.name))
+                rt = None if o.return_type is None else decl.from_real(o.return_type)
+                out.append(('method', o.name.segments[0].name, o.constructor, o.destructor, rt, tuple(ps), o.vararg,
+                            (o.const, o.volatile, o.override, o.final, {None: 0, '&': 1, '&&': 2}[o.ref_qualifier], val(o.throw), val(o.noexcept),
+                             o.pure_virtual, o.deleted, o.default, o.has_body),
+                            (o.constexpr, o.extern, o.inline, o.static, o.explicit, o.virtual)))
+    except decl.Unrepresentable:
+        return ('other',)
+    return ('ok', out)
+
+
+def gen_member_stmt(rng, cls):
+    from harness import decl
+    r = rng.random()
+    pre = [rng.choice(MS_SPECS) for _ in range(rng.choice([0, 0, 1, 2]))]
+    if r < 0.25:
+        # constructor / destructor
+        dtor = rng.random() < 0.4
+        ps = []
+        if not dtor:
+            for j in range(rng.choice([0, 1, 1, 2])):
+                while True:
+                    q = decl.rand_type(rng, rng.choice([0, 1, 2]))
+                    if decl.var_ok(q):
+                        break
+                ps.append((q, rng.choice([None, 'a%d' % j])))
+        toks = pre + [('~' if dtor else '') + cls, '('] + decl.print_params(tuple(ps), False) + [')']
+        for _ in range(rng.choice([0, 0, 1, 2])):
+            toks += rng.choice(MS_QUALS)
+        toks += list(rng.choice(MS_ENDS if dtor else MS_CTOR_ENDS))
+        return toks, 1
+    base = ('B', rng.choice(['Foo', 'Bar', 'T', cls]), False, False)
+    toks = pre + [base[1]]
+    n = rng.choice([1, 1, 2, 3])
+    last_m = False
+    for i in range(n):
+        if i:
+            toks.append(',')
+        if rng.random() < 0.5:
+            while True:
+                rt = _rebase(decl.rand_type(rng, rng.choice([0, 0, 1, 2, 3])), base)
+                if decl.kind(rt) in 'BR' and rt[0] != 'F':
+                    ps = []
+                    for j in range(rng.choice([0, 1, 1, 2])):
+                        while True:
+                            q = decl.rand_type(rng, rng.choice([0, 1, 2]))
+                            if decl.var_ok(q):
+                                break
+                        ps.append((q, rng.choice([None, 'a%d' % j])))
+                    t = ('F', rt, tuple(ps), rng.random() < 0.15)
+                    if decl.legal(t):
+                        break
+            toks += decl.print_layers(decl.layers(t)[1], ['m%d' % i])
+            for _ in range(rng.choice([0, 0, 1, 2, 3])):
+                toks += rng.choice(MS_QUALS)
+            last_m = True
+        else:
+            while True:
+                t = _rebase(decl.rand_type(rng, rng.choice([0, 1, 2, 4])), base)
+                if decl.legal(t) and decl.var_ok(t):
+                    break
+            toks += decl.print_layers(decl.layers(t)[1], ['f%d' % i])
+            if rng.random() < 0.2 and t[0] == 'B':
+                toks += [':', rng.choice(['1', '3', '12'])]
+            init = rng.choice(MS_INITS)
+            if init:
+                toks += init
+            last_m = False
+    toks += list(rng.choice(MS_ENDS)) if last_m else [';']
+    return toks, n
+
+
+def corr_member_stmts(ctx, corr):
+    from harness import decl
+    from harness.props import c02
+    rng = ctx.rng
+    cases = []
+    for _ in range(ctx.scale(1200, 24000)):
+        cls = rng.choice(['Cls', 'S_', 'Foo'])
+        toks, n = gen_member_stmt(rng, cls)
+        cases.append((cls, toks, n))
+        if rng.random() < 0.35:
+            mt = [t for t in c02.mutate(rng, toks) if t not in ('}',)] or [';']
+            cases.append((cls, mt, mt.count(',') + 1))
+    lines, nms = [], []
+    for cls, toks, n in cases:
+        names = decl.Names()
+        lines.append([108, n, names.id(cls), names.id('~' + cls)] + decl.enc_tokens(toks + ['}', ';'], names))
+        nms.append(names)
+    outs = run_driver(lines)
+    for (cls, toks, n), o, names in zip(cases, outs, nms):
+        corr.cases += 1
+        if o[0] == 0:
+            rest, k = o[1], o[2]
+            fl = [bool(x) for x in o[3:12]]       # const volatile constexpr extern inline static explicit virtual mutable
+            i = 12
+
+            def opt(i):
+                if o[i] == 0:
+                    return None, i + 1
+                cnt = o[i + 1]
+                vals = tuple(names.rev[o[i + 2 + 2 * q + 1]] if o[i + 2 + 2 * q + 1] else impl.TT[o[i + 2 + 2 * q]] for q in range(cnt))
+                return vals, i + 2 + 2 * cnt
+            items = []
+            for _ in range(k):
+                if o[i] == 0:
+                    nm = None if o[i + 1] == 0 else names.rev.get(o[i + 1] - 1, '?')
+                    ln = o[i + 2]
+                    t, _j = decl.dec_type(o, i + 3, names)
+                    i = i + 3 + ln
+                    if o[i] == 0:
+                        bits, i = None, i + 1
+                    else:
+                        bits, i = int(names.rev[o[i + 1]]), i + 2
+                    val, i = opt(i)
+                    items.append(('field', nm, t, bits, val, (fl[2], fl[8], fl[5], fl[4])))
+                else:
+                    nm, ctor, dtor, has_rt, ln = names.rev.get(o[i + 1], '?'), bool(o[i + 2]), bool(o[i + 3]), bool(o[i + 4]), o[i + 5]
+                    t, _j = decl.dec_type(o, i + 6, names)
+                    i = i + 6 + ln
+                    q5 = (bool(o[i]), bool(o[i + 1]), bool(o[i + 2]), bool(o[i + 3]), o[i + 4])
+                    i += 5
+                    th, i = opt(i)
+                    ne, i = opt(i)
+                    q = q5 + (th, ne, bool(o[i]), bool(o[i + 1]), bool(o[i + 2]), bool(o[i + 3]))
+                    i += 4
+                    items.append(('method', nm, ctor, dtor, t[1] if has_rt else None, t[2], t[3], q, (fl[2], fl[3], fl[4], fl[5], fl[6], fl[7])))
+            m = ('ok', items, rest)
+        else:
+            m = ('err', o[1])
+        r = real_member_stmt(cls, ' '.join(toks))
+        key = "memberstmt:" + (m[0] if m[0] == 'ok' else 'err%d' % m[1]) + "/" + r[0]
+        corr.dist[key] = corr.dist.get(key, 0) + 1
+        msg = None
+        if m[0] == 'ok' and m[2] == 2:
+            if r[0] == 'err':
+                msg = "model decodes the statement but the implementation rejects it"
+            elif r[0] == 'ok' and r[1] != m[1]:
+                msg = "model %s; implementation %s" % (m[1], r[1])
+        elif m[0] == 'err' and m[1] in (1, 2, 3) and r[0] == 'ok':
+            msg = "model rejects (code %d) but the implementation reports %s" % (m[1], r[1])
+        elif m[0] == 'err' and m[1] == 9:
+            msg = "model ran out of fuel"
+        if msg:
+            corr.disagreements.append(dict(case=dict(kind='corr-memberstmt', cls=cls, tokens=toks, n=n), model=str(m)[:500], impl=str(r)[:500],
+                                           what="member statement `%s` in struct %s: %s" % (' '.join(toks), cls, msg)))
+
+
 def correspond(ctx):
     corr = c05.correspond(ctx)
+    corr_member_stmts(ctx, corr)
     corr_ctor_dtor(ctx, corr)
     corr_class_enum(ctx, corr)
     corr_bases(ctx, corr)
